@@ -3,10 +3,12 @@ CONSTANTS
   MaxGroups = 0
   MaxObjects = 1
   MaxData = 3
+  MaxDrill = 0
   MaxPGs = 1
   ObjClasses = {"Points"}
   Prims = {"float", "floatcmap", "int", "ref", "text"}
   ShareTypes = TRUE
+  UnnamedPGs = FALSE
   Deviations = {}
 INVARIANT TypeOK
 INVARIANT EveryItemClassified
